@@ -9,7 +9,7 @@
   all alphabet names, all well-formed locations (`WF`: any number of blocks, zero-length, adjacent, nested,
   duplicate blocks) unless a hypothesis says otherwise; `ans` = observable answer (`none` = raised).
 -/
-import BioCantor.Proofs.SeqAppend
+import BioCantor.Proofs.SeqUnion
 namespace BioCantor.Props.C03
 open BioCantor BioCantor.Spec BioCantor.Model BioCantor.Spec.Sq BioCantor.Model.Sq BioCantor.Proofs
   BioCantor.Proofs.Sq
@@ -64,7 +64,10 @@ theorem subinterval_sequence_is_slice (P alph : List Char) (hnt : isNt alph = tr
     (hno : nonOverlap loc.blocks = true) (hlen : 0 < loc.len) (s e : Nat) (hse : s ≤ e) (he : e ≤ loc.len)
     (d : List Char) (hdta : expectExtract P alph l = some d) :
     ∃ m, relInterval l s e .plus = .ok m ∧ WF m ∧ Within P m ∧ locationStrand? m = some loc.strand ∧
-      m ≠ .empty ∧ ans (extract P alph m) = some ((d.drop s).take (e - s)) :=
+      m ≠ .empty ∧ nonOverlap (locationBlocks m) = true ∧
+      ((∀ b ∈ locationBlocks m, b.1 < b.2) ∨ ∃ b t, m = .single b t) ∧
+      locationBases m = ((bases loc).drop s).take (e - s) ∧
+      ans (extract P alph m) = some ((d.drop s).take (e - s)) :=
   sub_extract P alph hnt l h loc hl hW hd hno hlen s e hse he d hdta
 
 /-- T4a: EVERY unit-step slice `x[a:b]` / `x[a:b:1]` of a consistent located sequence object
@@ -80,7 +83,11 @@ theorem slice_keeps_location_consistent (P alph : List Char) (hnt : isNt alph = 
       y.data = (x.data.drop (normStart x.data.length a)).take
         (normEnd x.data.length a b - normStart x.data.length a) ∧
       y.par = some ⟨pst, some m⟩ ∧ WF m ∧ Within P m ∧
-      locationStrand? m = some loc.strand ∧ ans (extract P alph m) = some y.data :=
+      locationStrand? m = some loc.strand ∧ ans (extract P alph m) = some y.data ∧
+      nonOverlap (locationBlocks m) = true ∧
+      ((∀ b ∈ locationBlocks m, b.1 < b.2) ∨ ∃ b t, m = .single b t) ∧
+      locationBases m = ((bases loc).drop (normStart x.data.length a)).take
+        (normEnd x.data.length a b - normStart x.data.length a) :=
   slice_consistent P alph hnt x l loc hc hlen a b c hstep
 
 /-- the normalised bounds are a sub-range of the text, and for in-range bounds they are the bounds themselves -/
@@ -112,17 +119,28 @@ theorem reverse_complement_keeps_location_consistent (P alph : List Char) (hnt :
 example : involutiveLetters "ACgtRY-nK".toList "NT_EXTENDED_GAPPED".toList
     ⟨[(0, 2), (2, 5), (6, 6), (7, 8)], .minus⟩ = true := by decide +kernel
 
-/- T4c, full statement (not proved in this generality; checked by the correspondence run on every pair):
-     for consistent x, y on non-self-overlapping locations lx, ly of one directional strand with span(lx) wholly
-     5' of span(ly):  append P x y = ok z, z.data = x.data ++ y.data, z.par.loc = some (lx ∪ ly) and
-     extract P alph (lx ∪ ly) = ok z.data.
-   Proved below for single-interval operands; missing for compound operands: the block structure of
-   `CompoundInterval.union` (`Model.unionP`: sort + fold of pairwise unions) on disjoint ordered inputs. -/
+/-- T4c: concatenation.  For two consistent located objects `x`, `y` (single or compound locations, not
+    self-overlapping, non-empty) on one directional strand with the span of `x` wholly 5' of the span of `y`
+    (`appendCompatible`): `x.append(y)` is answered, holds `str(x) + str(y)`, and records a well-formed,
+    non-self-overlapping location inside the parent that covers exactly the positions of both operands and
+    extracts exactly the concatenated text.  (Block structure of `CompoundInterval.union`: C02's `unionP_spec`.) -/
+theorem append_keeps_location_consistent (P alph : List Char) (hnt : isNt alph = true) (x y : SeqObj)
+    (lx ly : Location) (locx locy : Loc) (hx : Consistent P alph x lx locx) (hy : Consistent P alph y ly locy)
+    (hcomp : appendCompatible lx ly = true) :
+    ∃ z m pst, append P x y = .ok z ∧ z.data = x.data ++ y.data ∧ z.par = some ⟨pst, some m⟩ ∧
+      WF m ∧ Within P m ∧ locationStrand? m = some locx.strand ∧ nonOverlap (locationBlocks m) = true ∧
+      (∀ q, locationCovers m q = (locationCovers lx q || locationCovers ly q)) ∧
+      ans (extract P alph m) = some z.data :=
+  append_consistent P alph hnt x y lx ly locx locy hx hy hcomp
+-- non-vacuity: two compound minus-strand operands, the first to the right of the second
+example : appendCompatible (.compound ⟨[(5, 6), (7, 9)], .minus⟩) (.compound ⟨[(0, 2), (3, 5)], .minus⟩) = true ∧
+    Consistent "ACGTACGTA".toList "NT_STRICT".toList
+      ⟨"TAG".toList, some ⟨none, some (.compound ⟨[(5, 6), (7, 9)], .minus⟩)⟩⟩
+      (.compound ⟨[(5, 6), (7, 9)], .minus⟩) ⟨[(5, 6), (7, 9)], .minus⟩ :=
+  ⟨by decide, ⟨⟨none, rfl⟩, by decide, rfl, by decide, rfl, by decide, by decide +kernel⟩⟩
 
-/-- T4c (partial): concatenation of two consistent objects located on single intervals `a`, `b` of one
-    directional strand, `a` wholly 5' of `b`: answered with the concatenated text and the two-block location,
-    which extracts exactly that text. -/
-theorem append_keeps_location_consistent_partial (P alph : List Char) (hnt : isNt alph = true) (a b : Blk)
+/-- T4c, explicit form for single-interval operands: the recorded location is the two-block location -/
+theorem append_of_single_intervals (P alph : List Char) (hnt : isNt alph = true) (a b : Blk)
     (st : Strand) (hd : st = .plus ∨ st = .minus) (ha : a.1 < a.2) (hb : b.1 < b.2)
     (hwa : blkWithin P a) (hwb : blkWithin P b) (hord : if st = .plus then a.2 ≤ b.1 else b.2 ≤ a.1)
     (dx dy : List Char) (px py : Option Strand)
@@ -134,6 +152,62 @@ theorem append_keeps_location_consistent_partial (P alph : List Char) (hnt : isN
 example : blkWithin "ACGTAC".toList (3, 6) ∧ blkWithin "ACGTAC".toList (0, 2) ∧
     (if Strand.minus = .plus then (3 : Nat) ≤ 0 else (2 : Nat) ≤ 3) ∧
     expectExtract "ACGTAC".toList "NT_STRICT".toList (.single (3, 6) .minus) = some "GTA".toList := by
+  decide +kernel
+
+/-! ### chains of slices and reverse complements -/
+
+/-- T5a: the model's slice index computation is Python's for EVERY bound and EVERY step (step 0 refused by both) -/
+theorem slice_indices_are_pythons (n : Nat) (a b c : Option Int) :
+    ans (sliceIndices n a b c) = pyIndices n a b c :=
+  sliceIndices_eq_spec n a b c
+
+/-- T5b: closed form of a unit-step slice: `d[a:b] = d[rs:re]` with the normalised bounds -/
+theorem unit_slice_closed_form (d : List Char) (a b c : Option Int) (hc : c = none ∨ c = some 1) :
+    pySlice d a b c = some ((d.drop (normStart d.length a)).take (normEnd d.length a b - normStart d.length a)) :=
+  pySlice_unit d a b c hc
+example : pySlice "ACGTAC".toList (some (-4)) none none = some "GTAC".toList := by decide +kernel
+
+/-- T5c: ONE step keeps the chain invariant `Good` (text = sequence of the recorded directional,
+    non-self-overlapping location without empty blocks — or a single interval — reading involutively
+    complemented letters; or no text and no location): every unit-step slice … -/
+theorem slice_step_keeps_invariant (P alph : List Char) (hnt : isNt alph = true) (x : SeqObj) (hg : Good P alph x)
+    (a b c : Option Int) (hc : c = none ∨ c = some 1) :
+    ∃ y, getSlice x a b c = .ok y ∧
+      y.data = (x.data.drop (normStart x.data.length a)).take
+        (normEnd x.data.length a b - normStart x.data.length a) ∧ Good P alph y :=
+  slice_good P alph hnt x hg a b c hc
+
+/-- … and every reverse complement -/
+theorem reverse_complement_step_keeps_invariant (P alph : List Char) (hnt : isNt alph = true) (x : SeqObj)
+    (hg : Good P alph x) :
+    ∃ y, reverseComplement alph x = .ok y ∧ revcomp alph x.data = some y.data ∧ Good P alph y :=
+  rc_good P alph hnt x hg
+
+/-- T5d: ANY chain of unit-step slices (arbitrary bounds) and reverse complements runs to the end, the
+    invariant holds for the result, and the text is what pure string semantics gives (no step may refuse) -/
+theorem chain_keeps_location_consistent (P alph : List Char) (hnt : isNt alph = true)
+    (prog : List Model.Sq.Step) (hprog : ∀ s ∈ prog, UnitStep s) (x : SeqObj) (hg : Good P alph x) :
+    ∃ y, runProg alph x prog = .ok y ∧ Good P alph y ∧
+      runSteps alph x.data (prog.map toSpecStep) = some (y.data, true) :=
+  chain_good P alph hnt prog hprog x hg
+
+/-- T5e (specification form): for every location that is directional, inside the parent, not self-overlapping,
+    free of empty blocks (or a single interval) and reads involutively complemented letters, and every chain
+    of unit-step slices and reverse complements, what the harness observes of
+    `prog(Sequence(extract(l), parent=Parent(location=l)))` passes `okProgram` -/
+theorem program_spec (P alph : List Char) (hnt : isNt alph = true) (l : Location) (loc : Loc) (h : WF l)
+    (hl : toLoc l = some loc) (hW : Within P l) (hd : loc.strand.isDirectional = true)
+    (hno : nonOverlap loc.blocks = true) (hz : (∀ b ∈ loc.blocks, b.1 < b.2) ∨ ∃ b s, l = .single b s)
+    (hinv : involutiveLetters P alph loc = true) (prog : List Model.Sq.Step) (hprog : ∀ s ∈ prog, UnitStep s) :
+    okProgram P alph l (prog.map toSpecStep) (progAns P alph l prog) = true :=
+  program_ok P alph hnt l loc h hl hW hd hno hz hinv prog hprog
+-- non-vacuity: a three-block minus-strand location with a 0-bp gap, and a chain slice / rc / open slice / empty slice / rc
+example : WF (.compound ⟨[(0, 2), (2, 5), (7, 8)], .minus⟩) ∧
+    Within "ACgtRY-nK".toList (.compound ⟨[(0, 2), (2, 5), (7, 8)], .minus⟩) ∧
+    nonOverlap [(0, 2), (2, 5), (7, 8)] = true ∧ (∀ b ∈ [((0, 2) : Blk), (2, 5), (7, 8)], b.1 < b.2) ∧
+    involutiveLetters "ACgtRY-nK".toList "NT_EXTENDED_GAPPED".toList ⟨[(0, 2), (2, 5), (7, 8)], .minus⟩ = true ∧
+    (∀ s ∈ [Model.Sq.Step.sl (some 1) (some (-1)) none, .rc, .sl none (some 2) (some 1), .sl (some 5) (some 1) none, .rc],
+      UnitStep s) := by
   decide +kernel
 
 /-- the complement branch of `reverse_complement` that would be a KeyError is unreachable: every alphabet the
